@@ -23,6 +23,7 @@ import Golib.FailClosed.Findings
 import Golib.FailClosed.PackA
 import Golib.FailClosed.Stream
 import Golib.FailClosed.Lazy
+import Golib.FailClosed.Reuse
 import Golib.Step.Prefix
 import Golib.Step.ValueInst
 
@@ -274,6 +275,40 @@ theorem lazy_write_after_error {T C : Type} (parse : Bytes → List C × Bool) (
 theorem lazy_ok_idempotent {T C : Type} (parse : Bytes → List C × Bool) (put : T → C → T)
     (s s' : Lazy.Obj T) (h : Lazy.unpack parse put s = .ok s') :
     Lazy.unpack parse put s' = .ok s' := Lazy.unpack_ok_idempotent parse put s s' h
+
+/-- **fail-closed over histories, for every two-phase decoder** (caching like StatGeneralPack's table
+    or decoding afresh on every access like the `GetRecords` of ZipPack / LogSinkZipPack / Stat*Pack):
+    if the bytes an object keeps do not decode, then in every sequence of accesses, writes and
+    emptiness tests on that object every access fails, every write emits exactly the kept bytes and
+    `IsEmpty()` is false -/
+theorem lazy_history_fail_closed {T C : Type} (S : Lazy.Spec T C) (ops : List Lazy.Op) (s : Lazy.Obj T)
+    (hne : s.raw ≠ []) (hbad : (S.parse s.raw).2 = false) :
+    Lazy.runOps S s ops = ops.map (Lazy.brokenObs s.raw) := Lazy.history_fail_closed S ops s hne hbad
+
+/-- frame: no history changes the kept bytes; a non-caching accessor changes nothing at all -/
+theorem lazy_history_keeps_bytes {T C : Type} (S : Lazy.Spec T C) (ops : List Lazy.Op) (s : Lazy.Obj T)
+    (hne : s.raw ≠ []) (hbad : (S.parse s.raw).2 = false) : (Lazy.finalObj S s ops).raw = s.raw :=
+  Lazy.history_keeps_bytes S ops s hne hbad
+
+theorem lazy_stateless_frame {T C : Type} (S : Lazy.Spec T C) (hc : S.cache = false) (s : Lazy.Obj T)
+    (op : Lazy.Op) : (Lazy.step S s op).1 = s := Lazy.stateless_step_frame S hc s op
+
+/-! ### object reuse -/
+
+/-- a reader whose successful `Read` determines the object from the input alone: after ANY history of
+    earlier `Read`s into the same object (failed or successful) a valid `Read` gives what a fresh
+    decode gives -/
+theorem reuse_after_any_history {S O : Type} (rd : Reuse.Reader S) (obs : S → O) (h : Reuse.Resets rd obs)
+    (fresh : S) (hist : List Bytes) (good : Bytes) (hgood : (rd fresh good).2 = true) :
+    (rd (Reuse.readAll rd fresh hist) good).2 = true ∧
+      obs (rd (Reuse.readAll rd fresh hist) good).1 = obs (rd fresh good).1 :=
+  Reuse.reuse_history rd obs h fresh hist good hgood
+
+/-- the readers that `Put` into the table the object already holds are not of that kind (they are
+    listed exactly by `C04Gen.additive_readers_exact`) -/
+theorem reuse_additive_exception : ¬ Reuse.Resets Reuse.putReader id := Reuse.additive_not_reset
+
+example : Reuse.Resets Reuse.assignReader id := Reuse.assignReader_resets
 
 /-- the other order (bytes dropped before decoding) is not fail-closed: second access accepts the
     partial table, `Write` re-encodes it -/
